@@ -47,6 +47,17 @@ def lookupLast {β} (k : Str) : List (Str × β) → Option β
     | some w => some w
     | none => if k' = k then some v else none
 
+/-- the `dict` a sequence of `d[k] = v` builds: keys in first-insertion order, last value wins. -/
+def dictOf {β} (l : List (Str × β)) : List (Str × β) :=
+  let rec go : List (Str × β) → List Str → List (Str × β)
+    | [], _ => []
+    | (k, _) :: rest, seen =>
+      if seen.contains k then go rest seen
+      else match lookupLast k l with
+        | some v => (k, v) :: go rest (k :: seen)
+        | none => go rest (k :: seen)
+  go l []
+
 /-- `s.split(".")`. -/
 def splitDots : Str → List Str
   | [] => [[]]
@@ -159,7 +170,7 @@ def validateSection (ve : VEnv) (bt : List (Str × Str)) (sec : Node) (sch : Opt
         ++ (match sch.defaultTarget with
             | some t => if !t.isEmpty && !builtins.contains t then [t] else []
             | none => [])
-        ++ (bt.map (·.2)).filter (fun t => !builtins.contains t)
+        ++ ((dictOf bt).map (·.2)).filter (fun t => !builtins.contains t)     -- `self._block_targets.values()`
       unknownErrs ++ (sch.fields.map fun (fname, fd) => fieldErrors ve sch key present custom bt fname fd).flatten
     | _ => []
 
